@@ -25,6 +25,8 @@ PLAIN_NAMES = ["alpha.txt", "Beta.txt", "gamma", "delta.html", "epsilon.html", "
                "café.txt", "10", "9", "z.txt", "Z.txt", "_under", "-dash"]
 DOTFILES = [".hidden", ".x", ".profile"]
 DOTDIRS = [".private", ".git", ".well-known"]
+# names equal up to letter case: any case-folding sort key would let the enumeration order decide
+CASE_GROUPS = [["README", "readme", "Readme"], ["Makefile", "makefile"], ["Docs.txt", "docs.txt", "DOCS.txt"], ["x.TXT", "x.txt"]]
 
 
 def gen_dir(rng, n: int, allow_gophermap: bool) -> typing.Tuple[Tree, typing.Dict[str, str]]:
@@ -33,6 +35,8 @@ def gen_dir(rng, n: int, allow_gophermap: bool) -> typing.Tuple[Tree, typing.Dic
     kinds: typing.Dict[str, str] = {}
     pool = PATTERN_NAMES + PLAIN_NAMES + DOTFILES + DOTDIRS
     names = rng.sample(pool, min(n, len(pool)))
+    if n >= 2 and rng.random() < 0.5:
+        names = names[:max(0, n - 3)] + rng.choice(CASE_GROUPS)
     for nm in names:
         if nm == "gophermap" and not allow_gophermap:
             continue
